@@ -355,7 +355,7 @@ PROPS = {
                 "followed by the initial text; every get-messages reply is the complete board at some instant of its round (a suffix of the final "
                 "board starting at a post boundary, not older than posts acknowledged before); every post announced (102) exactly once to every "
                 "connected client; every 109 carries exactly the agreement; non-trivial = two reads overlap on a board > 512 bytes, or a read "
-                "overlaps a post, or simultaneous logins against an agreement > 512 bytes; distinct = hash(sizes, rounds, logins)",
+                "overlaps a post, or simultaneous logins against an agreement > 512 bytes; distinct = hash(sizes, rounds, logins); in a quarter of the bubble cases a stale MessageBoard.txt.tmp (what a server that died between writing and renaming leaves behind) is present from the start",
         "assumptions": ["goroutine schedules are sampled (bubble: Go scheduler inside the bubble; live: real scheduler)", "board text uses CR line ends (the store converts LF on load)"],
         "quick": {"runs": [{"test": "^TestC19$", "shards": 12, "checks": 60, "timeout": 900},
                            {"test": "^TestC19Live$", "shards": 2, "timeout": 600, "weight": 2}]},
@@ -376,7 +376,7 @@ PROPS = {
                 "is loaded with the production constructors: it must load, equal the complete old or the complete new observable value "
                 "(board text, news tree, accounts with name/privileges/password hash, ban map), and be new if ACK was printed; "
                 "evaluations = killed runs; non-trivial = crash point strictly after the first and not after the last mutating call of the "
-                "update; distinct = hash(history, crash point index); exhaustive per generated update (all system-call boundaries); every update that was acknowledged by a process that then ended normally must be visible to a restart (independent per-operation expectation: post at the top of the board file, ban entry with its expiry, account present/renamed/absent with name and privileges, news item present/absent)",
+                "update; distinct = hash(history, crash point index); exhaustive per generated update (all system-call boundaries); every update that was acknowledged by a process that then ended normally must be visible to a restart (independent per-operation expectation: post at the top of the board file, ban entry with its expiry, account present/renamed/absent with name and privileges, news item present/absent); after every kill point the restarted store makes one more, independent update without any fault: it must be acknowledged, visible, and the stores must equal that update applied to what the restart had loaded (nothing the crash left behind may leak into later updates)",
         "assumptions": ["fault model = process kill at system-call boundaries (page cache survives); torn single writes and power loss are not modelled",
                         "strace when= counters are per thread: kills caused by another runtime thread reaching the same ordinal are extra crash points, never missing ones"],
         "quick": {"runs": [{"test": "^TestC20$", "shards": 16, "checks": 6, "timeout": 900}]},
